@@ -17,7 +17,7 @@ This private submodule is *not* intended for importation by downstream callers.
 from ast import PyCF_ONLY_AST
 from beartype.claw._ast.clawastmain import BeartypeNodeTransformer
 from beartype.claw._importlib.clawimpcache import (  # type: ignore[attr-defined]
-    cache_from_source_beartype,
+    make_cache_from_source_beartype,
     cache_from_source_original,
 )
 from beartype.roar import BeartypeClawImportAstException
@@ -488,7 +488,13 @@ class BeartypeSourceFileLoader(SourceFileLoader):
         #
         # Note that @agronholm (Alex Grönholm) claims that "the import lock
         # should make this monkey patch safe." We're trusting you here, man!
-        _bootstrap_external.cache_from_source = cache_from_source_beartype
+        #
+        # Note that this beartype-specific variant is specific to the beartype
+        # configuration under which this module is compiled, as several options
+        # of that configuration change the AST transformation applied below and
+        # thus the bytecode cached for this module.
+        _bootstrap_external.cache_from_source = (
+            make_cache_from_source_beartype(conf))
 
         # Attempt to defer to the superclass method.
         try:
